@@ -154,7 +154,8 @@ class H2Protocol:
         if headers is not None:
             event = _request_received(1, headers)
             await self._create_stream(event)
-            await self.streams[event.stream_id].handle(EndBody(stream_id=event.stream_id))
+            if event.stream_id in self.streams:  # Unless the request was refused
+                await self.streams[event.stream_id].handle(EndBody(stream_id=event.stream_id))
         self.task_group.spawn(self.send_task)
 
     async def send_task(self) -> None:
